@@ -303,4 +303,290 @@ theorem filterRule_preserves (env : Env) (henv : EnvCatchAll env) (setName : Str
       simp only [if_true, ruleMatches, netsMatch]
       simp [this]
 
+/-! ### `CalculateRuleMatch`: the clause list is the reference match -/
+
+theorem clausesMatch_append (env : Env) (pkt : Packet) (mark : Mark) (a b : List Clause) :
+    clausesMatch env pkt mark (a ++ b) = (clausesMatch env pkt mark a && clausesMatch env pkt mark b) := by
+  simp [clausesMatch, List.all_append]
+
+theorem clausesMatch_map {α : Type} (env : Env) (pkt : Packet) (mark : Mark) (l : List α) (f : α → Clause) :
+    clausesMatch env pkt mark (l.map f) = l.all (fun x => (f x).matches env pkt mark) := by
+  simp [clausesMatch, List.all_map, Function.comp_def]
+
+theorem seg_proto (env : Env) (pkt : Packet) (mark : Mark) (p : Option Proto) :
+    clausesMatch env pkt mark (protoClause false p) =
+      (match p with | none => true | some p => protoIs env (protoTrunc p) pkt.proto) := by
+  cases p <;> simp [protoClause, clausesMatch, Clause.matches, xorb]
+
+theorem seg_notproto (env : Env) (pkt : Packet) (mark : Mark) (p : Option Proto) :
+    clausesMatch env pkt mark (protoClause true p) =
+      (match p with | none => true | some p => !protoIs env (protoTrunc p) pkt.proto) := by
+  cases p <;> simp [protoClause, clausesMatch, Clause.matches, xorb]
+
+def addrOf (d : Dir) (pkt : Packet) : Nat := match d with | .src => pkt.src | .dst => pkt.dst
+def portOf (d : Dir) (pkt : Packet) : Nat := match d with | .src => pkt.sport | .dst => pkt.dport
+
+theorem net_matches (env : Env) (pkt : Packet) (mark : Mark) (d : Dir) (neg : Bool) (c : String) :
+    (Clause.net d neg c).matches env pkt mark = xorb neg (env.netContains c (addrOf d pkt)) := by
+  cases d <;> rfl
+
+theorem seg_net_pos (env : Env) (pkt : Packet) (mark : Mark) (d : Dir) (l : List String)
+    (hl : l.length ≤ 1) (hf : ∀ c ∈ l, cidrIsV6 c = pkt.v6) :
+    clausesMatch env pkt mark (l.map (.net d false)) =
+      (l.isEmpty || l.any (fun c => netHas env pkt.v6 c (addrOf d pkt))) := by
+  rcases l with _ | ⟨c, _ | ⟨c', cs⟩⟩
+  · rfl
+  · have := hf c List.mem_cons_self
+    simp [clausesMatch, net_matches, xorb, netHas, this]
+  · simp at hl
+
+theorem seg_net_neg (env : Env) (pkt : Packet) (mark : Mark) (d : Dir) (l : List String)
+    (hf : ∀ c ∈ l, cidrIsV6 c = pkt.v6) :
+    clausesMatch env pkt mark (l.map (.net d true)) =
+      !l.any (fun c => netHas env pkt.v6 c (addrOf d pkt)) := by
+  induction l with
+  | nil => rfl
+  | cons c cs ih =>
+    have h1 := hf c List.mem_cons_self
+    have h2 := ih (fun c hc => hf c (List.mem_cons_of_mem _ hc))
+    simp only [clausesMatch, List.map_cons, List.all_cons, List.any_cons, Bool.not_or] at h2 ⊢
+    rw [h2]
+    simp [net_matches, xorb, netHas, h1]
+
+theorem familyOK_of_same (v6 : Bool) (l : List String) (hf : ∀ c ∈ l, cidrIsV6 c = v6) : familyOK v6 l = true := by
+  rcases l with _ | ⟨c, cs⟩
+  · rfl
+  · simp [familyOK, hf c List.mem_cons_self]
+
+theorem seg_ipset (env : Env) (pkt : Packet) (mark : Mark) (d : Dir) (neg : Bool) (setName : String → String)
+    (l : List String) :
+    clausesMatch env pkt mark (l.map (fun id => .ipset d neg (setName id))) =
+      l.all (fun id => xorb neg (env.inIPSet (setName id) (addrOf d pkt))) := by
+  rw [clausesMatch_map]; congr 1; funext id; cases d <;> rfl
+
+theorem seg_ipportset (env : Env) (pkt : Packet) (mark : Mark) (d : Dir) (neg : Bool) (setName : String → String)
+    (l : List String) :
+    clausesMatch env pkt mark (l.map (fun id => .ipportset d neg (setName id))) =
+      l.all (fun id => xorb neg (env.inIPPortSet (setName id) (addrOf d pkt) pkt.proto (portOf d pkt))) := by
+  rw [clausesMatch_map]; congr 1; funext id; cases d <;> rfl
+
+theorem ports_matches (env : Env) (pkt : Packet) (mark : Mark) (d : Dir) (neg : Bool) (rs : List PortRange) :
+    (Clause.ports d neg rs).matches env pkt mark = (isPortProto pkt.proto && xorb neg (inRanges rs (portOf d pkt))) := by
+  cases d <;> rfl
+
+/-- positive ports: one multiport clause (if any numeric port) + the named-port sets, in the case
+where no block is needed -/
+theorem seg_ports_pos (env : Env) (pkt : Packet) (mark : Mark) (d : Dir) (setName : String → String)
+    (ps : List PortRange) (named : List String) (h1 : named.length ≤ 1) (h2 : ps = [] ∨ named = []) :
+    clausesMatch env pkt mark ((if ps.isEmpty then [] else [.ports d false ps]) ++
+        named.map (fun id => .ipportset d false (setName id))) =
+      portsMatch env setName ps named pkt.proto (addrOf d pkt) (portOf d pkt) := by
+  rw [clausesMatch_append, seg_ipportset]
+  rcases h2 with h | h
+  · subst h
+    rcases named with _ | ⟨n, _ | ⟨n', ns⟩⟩
+    · simp [clausesMatch, portsMatch]
+    · simp [clausesMatch, portsMatch, xorb, inRanges]
+    · simp at h1
+  · subst h
+    by_cases hp : ps.isEmpty = true
+    · simp [hp, clausesMatch, portsMatch]
+    · have hp' : ps.isEmpty = false := by simpa using hp
+      simp [hp', clausesMatch, portsMatch, ports_matches, xorb]
+
+theorem splitPortList_eq_nil (ps : List PortRange) : splitPortList ps = [] ↔ ps = [] := by
+  constructor
+  · intro h; have := splitPortList_flatten ps; rw [h] at this; simpa using this.symm
+  · intro h; subst h; simp [splitPortList]
+
+theorem seg_ports_neg (env : Env) (pkt : Packet) (mark : Mark) (d : Dir) (ps : List PortRange) :
+    clausesMatch env pkt mark ((splitPortList ps).map (.ports d true)) =
+      (ps.isEmpty || (isPortProto pkt.proto && !inRanges ps (portOf d pkt))) := by
+  rw [clausesMatch_map]
+  by_cases hp : ps = []
+  · subst hp; simp [splitPortList]
+  · have hne : splitPortList ps ≠ [] := fun h => hp ((splitPortList_eq_nil ps).1 h)
+    have hpe : ps.isEmpty = false := by simpa using hp
+    rw [hpe, Bool.false_or]
+    conv => rhs; rw [← splitPortList_flatten ps, inRanges_flatten]
+    generalize splitPortList ps = ss at hne
+    simp only [ports_matches, xorb, if_true]
+    induction ss with
+    | nil => exact absurd rfl hne
+    | cons s rest ih =>
+      rcases rest with _ | ⟨s', rest'⟩
+      · simp
+      · have := ih (by simp)
+        simp only [List.all_cons, List.any_cons, Bool.not_or] at this ⊢
+        rw [this]
+        cases isPortProto pkt.proto <;> simp
+
+theorem seg_icmp (env : Env) (pkt : Packet) (mark : Mark) (i : IcmpMatch) :
+    clausesMatch env pkt mark (icmpClause pkt.v6 false i) = icmpMatches pkt i := by
+  cases i <;> cases hd : env.dp <;>
+    simp [icmpClause, clausesMatch, Clause.matches, icmpMatches, isIcmpPkt, xorb, hd, Bool.and_assoc]
+
+theorem seg_noticmp (env : Env) (pkt : Packet) (mark : Mark) (i : IcmpMatch)
+    (h : env.dp = .ipt ∨ ∀ t c, i ≠ .typeCode t c) :
+    clausesMatch env pkt mark (icmpClause pkt.v6 true i) = notIcmpMatches pkt i := by
+  cases i with
+  | none => simp [icmpClause, clausesMatch, notIcmpMatches]
+  | type t => cases hd : env.dp <;>
+      simp [icmpClause, clausesMatch, Clause.matches, notIcmpMatches, isIcmpPkt, xorb, hd]
+  | typeCode t c =>
+    rcases h with h | h
+    · simp [icmpClause, clausesMatch, Clause.matches, notIcmpMatches, isIcmpPkt, xorb, h]
+    · exact absurd rfl (h t c)
+
+theorem seg_ports_if (env : Env) (pkt : Packet) (mark : Mark) (d : Dir) (ps : List PortRange) :
+    clausesMatch env pkt mark (if ps.isEmpty then [] else [.ports d false ps]) =
+      (ps.isEmpty || (isPortProto pkt.proto && inRanges ps (portOf d pkt))) := by
+  by_cases hp : ps.isEmpty = true
+  · simp [hp, clausesMatch]
+  · have hp' : ps.isEmpty = false := by simpa using hp
+    simp [hp', clausesMatch, ports_matches, xorb]
+
+theorem ports_simple (env : Env) (setName : String → String) (ps : List PortRange) (named : List String)
+    (proto addr port : Nat) (h1 : named.length ≤ 1) (h2 : ps = [] ∨ named = []) :
+    portsMatch env setName ps named proto addr port =
+      ((ps.isEmpty || (isPortProto proto && inRanges ps port)) &&
+        named.all (fun id => env.inIPPortSet (setName id) addr proto port)) := by
+  rcases h2 with h | h
+  · subst h
+    rcases named with _ | ⟨n, _ | ⟨n', ns⟩⟩
+    · simp [portsMatch]
+    · simp [portsMatch, inRanges]
+    · simp at h1
+  · subst h
+    by_cases hp : ps.isEmpty = true
+    · simp [hp, portsMatch]
+    · have hp' : ps.isEmpty = false := by simpa using hp
+      simp [hp', portsMatch]
+
+/-- a rule that `CalculateRuleMatch` can render in ONE netfilter rule (what is left after the
+match blocks took the overflowing lists), with all CIDRs of the packet's family -/
+structure Simple (v6 : Bool) (r : Policy.Rule) : Prop where
+  sn : r.srcNet.length ≤ 1
+  nsn : r.notSrcNet.length ≤ 1
+  dn : r.dstNet.length ≤ 1
+  ndn : r.notDstNet.length ≤ 1
+  snp : r.srcNamedPortIpSetIds.length ≤ 1
+  dnp : r.dstNamedPortIpSetIds.length ≤ 1
+  sps : r.srcPorts = [] ∨ r.srcNamedPortIpSetIds = []
+  dps : r.dstPorts = [] ∨ r.dstNamedPortIpSetIds = []
+  fsn : ∀ c ∈ r.srcNet, cidrIsV6 c = v6
+  fnsn : ∀ c ∈ r.notSrcNet, cidrIsV6 c = v6
+  fdn : ∀ c ∈ r.dstNet, cidrIsV6 c = v6
+  fndn : ∀ c ∈ r.notDstNet, cidrIsV6 c = v6
+
+theorem calc_exact (env : Env) (pkt : Packet) (mark : Mark) (setName : String → String) (r : Policy.Rule)
+    (hs : Simple pkt.v6 r) (hi : env.dp = .ipt ∨ ∀ t c, r.notIcmp ≠ .typeCode t c) :
+    ∃ m, calculateRuleMatch setName pkt.v6 r = some m ∧
+      clausesMatch env pkt mark m = (netsMatch env r pkt && restMatch env setName r pkt) := by
+  unfold calculateRuleMatch
+  have hnp : ¬ (r.srcNet.length > 1 ∨ r.dstNet.length > 1 ∨ r.notSrcNet.length > 1 ∨ r.notDstNet.length > 1 ∨
+     r.srcNamedPortIpSetIds.length > 1 ∨ r.dstNamedPortIpSetIds.length > 1) := by
+    have := hs.sn; have := hs.dn; have := hs.nsn; have := hs.ndn; have := hs.snp; have := hs.dnp
+    omega
+  rw [if_neg hnp]
+  refine ⟨_, rfl, ?_⟩
+  simp only [clausesMatch_append, seg_proto, seg_notproto, seg_net_pos env pkt mark _ _ hs.sn hs.fsn,
+    seg_net_pos env pkt mark _ _ hs.dn hs.fdn, seg_net_neg env pkt mark _ _ hs.fnsn,
+    seg_net_neg env pkt mark _ _ hs.fndn, seg_ipset, seg_ipportset, seg_ports_if, seg_ports_neg,
+    seg_icmp, seg_noticmp env pkt mark _ hi, addrOf, portOf, xorb, Bool.false_eq_true, if_false, if_true]
+  simp only [netsMatch, restMatch, familyOK_of_same _ _ hs.fsn, familyOK_of_same _ _ hs.fnsn,
+    familyOK_of_same _ _ hs.fdn, familyOK_of_same _ _ hs.fndn, Bool.true_and,
+    ports_simple env setName _ _ _ _ _ hs.snp hs.sps, ports_simple env setName _ _ _ _ _ hs.dnp hs.dps]
+  ac_rfl
+
+/-! ### mark-bit algebra of the match blocks -/
+
+theorem and_zero_bit {x y : Mark} (h : x &&& y = 0) (i : Nat) (hi : i < 32) : (x[i] && y[i]) = false := by
+  have := congrArg (fun v : Mark => v[i]) h
+  simpa using this
+
+/-- mark with the AllBlocks bit(s) `A` equal to `a` and the ThisBlock bit(s) `T` equal to `t` -/
+def mk (A T base : Mark) (a t : Bool) : Mark :=
+  base ||| (if a then A else 0) ||| (if t then T else 0)
+
+theorem mk_setA (A T base : Mark) (a t : Bool) : mk A T base a t ||| A = mk A T base true t := by
+  unfold mk; ext i hi
+  cases a <;> cases t <;> simp <;> cases base[i] <;> cases A[i] <;> cases T[i] <;> simp
+
+theorem mk_setT (A T base : Mark) (a t : Bool) : mk A T base a t ||| T = mk A T base a true := by
+  unfold mk; ext i hi
+  cases a <;> cases t <;> simp <;> cases base[i] <;> cases A[i] <;> cases T[i] <;> simp
+
+theorem mk_clearA (A T base : Mark) (a t : Bool) (hAT : A &&& T = 0) (hb : base &&& A = 0) :
+    mk A T base a t &&& ~~~ A = mk A T base false t := by
+  unfold mk; ext i hi
+  have h1 := and_zero_bit hAT i hi
+  have h2 := and_zero_bit hb i hi
+  cases a <;> cases t <;> simp <;> revert h1 h2 <;> cases base[i] <;> cases A[i] <;> cases T[i] <;> simp
+
+theorem mk_and_A (A T base : Mark) (a t : Bool) (hAT : A &&& T = 0) (hb : base &&& A = 0) :
+    mk A T base a t &&& A = if a then A else 0 := by
+  unfold mk; ext i hi
+  have h1 := and_zero_bit hAT i hi
+  have h2 := and_zero_bit hb i hi
+  cases a <;> cases t <;> simp <;> revert h1 h2 <;> cases base[i] <;> cases A[i] <;> cases T[i] <;> simp
+
+theorem mk_and_T (A T base : Mark) (a t : Bool) (hAT : A &&& T = 0) (hb : base &&& T = 0) :
+    mk A T base a t &&& T = if t then T else 0 := by
+  unfold mk; ext i hi
+  have h1 := and_zero_bit hAT i hi
+  have h2 := and_zero_bit hb i hi
+  cases a <;> cases t <;> simp <;> revert h1 h2 <;> cases base[i] <;> cases A[i] <;> cases T[i] <;> simp
+
+theorem mk_testA (A T base : Mark) (a t : Bool) (hA : A ≠ 0) (hAT : A &&& T = 0) (hb : base &&& A = 0) :
+    (mk A T base a t &&& A == A) = a := by
+  rw [mk_and_A A T base a t hAT hb]
+  cases a
+  · simpa using Ne.symm hA
+  · simp
+
+theorem mk_testT_clear (A T base : Mark) (a t : Bool) (hT : T ≠ 0) (hAT : A &&& T = 0) (hb : base &&& T = 0) :
+    (mk A T base a t &&& T == 0) = !t := by
+  rw [mk_and_T A T base a t hAT hb]
+  cases t
+  · simp
+  · simpa using hT
+
+/-- other bits are untouched -/
+theorem mk_and_other (A T base x : Mark) (a t : Bool) (hxA : x &&& A = 0) (hxT : x &&& T = 0) :
+    mk A T base a t &&& x = base &&& x := by
+  unfold mk; ext i hi
+  have h1 := and_zero_bit hxA i hi
+  have h2 := and_zero_bit hxT i hi
+  cases a <;> cases t <;> simp <;> revert h1 h2 <;> cases base[i] <;> cases A[i] <;> cases T[i] <;> cases x[i] <;> simp
+
+def baseOf (A T m : Mark) : Mark := m &&& ~~~ (A ||| T)
+
+theorem baseOf_and_A (A T m : Mark) : baseOf A T m &&& A = 0 := by
+  unfold baseOf; ext i hi; simp <;> cases m[i] <;> cases A[i] <;> cases T[i] <;> simp
+
+theorem baseOf_and_T (A T m : Mark) : baseOf A T m &&& T = 0 := by
+  unfold baseOf; ext i hi; simp <;> cases m[i] <;> cases A[i] <;> cases T[i] <;> simp
+
+theorem baseOf_and_other (A T m x : Mark) (hxA : x &&& A = 0) (hxT : x &&& T = 0) :
+    baseOf A T m &&& x = m &&& x := by
+  unfold baseOf; ext i hi
+  have h1 := and_zero_bit hxA i hi
+  have h2 := and_zero_bit hxT i hi
+  simp <;> revert h1 h2 <;> cases m[i] <;> cases A[i] <;> cases T[i] <;> cases x[i] <;> simp
+
+theorem baseOf_mk (A T base : Mark) (a t : Bool) (hA : base &&& A = 0) (hT : base &&& T = 0) :
+    baseOf A T (mk A T base a t) = base := by
+  unfold baseOf mk; ext i hi
+  have h1 := and_zero_bit hA i hi
+  have h2 := and_zero_bit hT i hi
+  cases a <;> cases t <;> simp <;> revert h1 h2 <;> cases base[i] <;> cases A[i] <;> cases T[i] <;> simp
+
+/-- the initial "reset" rule, on either dataplane, for `v = 0` or `v = A` -/
+theorem init_mark (dp : Dataplane) (A T m : Mark) (setA : Bool) :
+    applyMark dp m (.setMaskedMark (if setA then A else 0) (A ||| T)) = mk A T (baseOf A T m) setA false := by
+  unfold mk baseOf
+  cases dp <;> cases setA <;> simp only [applyMark] <;> ext i hi <;> simp <;>
+    cases m[i] <;> cases A[i] <;> cases T[i] <;> simp
+
 end CalicoVerif.C08
